@@ -313,6 +313,7 @@ type knownFinding struct {
 	Match    string `json:"match"` // regular expression on the violation message
 	What     string `json:"what"`
 	re       *regexp.Regexp
+	cre      *regexp.Regexp
 }
 
 type knownFile struct {
@@ -332,13 +333,14 @@ func loadKnown() *knownFile {
 	}
 	for _, f := range k.Known {
 		f.re = regexp.MustCompile(f.Match)
+		f.cre = regexp.MustCompile("^(?:" + f.Class + ")$")
 	}
 	return k
 }
 
 func (k *knownFile) match(v *Violation) *knownFinding {
 	for _, f := range k.Known {
-		if f.Property == v.Prop && f.Class == v.Class && f.re.MatchString(v.Msg) {
+		if f.Property == v.Prop && f.cre.MatchString(v.Class) && f.re.MatchString(v.Msg) {
 			return f
 		}
 	}
